@@ -10,6 +10,7 @@ import (
 
 	"verif/internal/core"
 	"verif/internal/flow"
+	"verif/internal/load"
 )
 
 // R-C02-7: validation covers the runtime lookups.
@@ -815,6 +816,8 @@ func c02ValidateJump(c *core.Ctx, a *c02Anchors, f *flow.Func, cons string, isSp
 	}
 	// membership test
 	var member *ast.CallExpr
+	memberStatus := ""
+	var memberAt ast.Node
 	memberWhy := "the jump validator never tests the jumpIf key against the filter kind's Results (stringtool.StrInSlice): a jumpIf on a result the filter can never return is accepted"
 	var memberCalls []*ast.CallExpr
 	d.inside(inner.Body, gi, func(n ast.Node) bool {
@@ -854,6 +857,25 @@ func c02ValidateJump(c *core.Ctx, a *c02Anchors, f *flow.Func, cons string, isSp
 			continue
 		}
 		member = call
+	}
+	// a membership predicate of the project's own (`kind.HasResult(result)`, `hasResult(results, r)`)
+	if member == nil {
+		d.inside(inner.Body, gi, func(n ast.Node) bool {
+			call, ok := n.(*ast.CallExpr)
+			if !ok || member != nil {
+				return true
+			}
+			m, why, status := c02MemberHelper(c, f, d, call, resKey, specObj, fResults)
+			switch status {
+			case "ok":
+				member = m
+			case "bad", "undecided":
+				member, memberWhy = nil, why
+				memberStatus = status
+				memberAt = call
+			}
+			return true
+		})
 	}
 	// count expressions
 	var countRenders []string
@@ -981,8 +1003,14 @@ func c02ValidateJump(c *core.Ctx, a *c02Anchors, f *flow.Func, cons string, isSp
 	}
 	c.RequireCount("R-C02-7", "abstract iterations over jumpIf entries", innerIter, 1)
 	c.RequireCount("R-C02-7", "abstract iterations over flow nodes", outerIter, 1)
-	if member == nil {
-		c.Violate("R-C02-7", cons+"|result declared by the filter kind", pos(c, inner), memberWhy)
+	if member == nil && memberStatus == "undecided" {
+		c.Undecide("R-C02-7", cons+"|result declared by the filter kind", pos(c, memberAt), memberWhy)
+	} else if member == nil {
+		at := ast.Node(inner)
+		if memberAt != nil {
+			at = memberAt
+		}
+		c.Violate("R-C02-7", cons+"|result declared by the filter kind", pos(c, at), memberWhy)
 	} else {
 		c.Check(badMember == nil, "R-C02-7", cons+"|result declared by the filter kind", pos(c, member),
 			"every accepted jumpIf entry has passed StrInSlice(result, GetKind(spec.Kind()).Results)",
@@ -1242,4 +1270,271 @@ func c02TableHas(f *flow.Func, okID, param *ast.Ident, exact string) (has, known
 		}
 	}
 	return has, true
+}
+
+// c02MemberHelper recognises a call, inside the jumpIf loop, of a project function that decides
+// whether the jumpIf key is one of the Results of the node's filter kind, and verifies the helper:
+// it may return true only after an element of Results was found equal to the key (or StrInSlice said
+// so). status: "" (not such a call), "ok", "bad" (helper can say yes without the equality),
+// "undecided" (helper shape not understood).
+func c02MemberHelper(c *core.Ctx, f *flow.Func, d *c02Defs, call *ast.CallExpr, resKey, specObj types.Object, fResults *types.Var) (*ast.CallExpr, string, string) {
+	fo, ok := f.Callee(call).(*types.Func)
+	if !ok || fo.Pkg() == nil || !strings.HasPrefix(fo.Pkg().Path(), load.ModulePath) || resKey == nil {
+		return nil, "", ""
+	}
+	sig := fo.Type().(*types.Signature)
+	if sig.Results().Len() != 1 {
+		return nil, "", ""
+	}
+	if b, ok := sig.Results().At(0).Type().Underlying().(*types.Basic); !ok || b.Kind() != types.Bool {
+		return nil, "", ""
+	}
+	// the key argument
+	keyIdx := -1
+	for i, arg := range call.Args {
+		if d.rootObj(arg) == resKey {
+			keyIdx = i
+		}
+	}
+	if keyIdx < 0 {
+		return nil, "", ""
+	}
+	// is `e` (in the caller) the Results of the node's own kind, or that kind itself?
+	isKind := func(e ast.Expr) bool {
+		gk, ok := d.alias(e).(*ast.CallExpr)
+		if !ok || !calleeIs(f, gk, c02fl+".GetKind") || len(gk.Args) != 1 {
+			return false
+		}
+		kc, ok := d.alias(gk.Args[0]).(*ast.CallExpr)
+		if !ok {
+			return false
+		}
+		sel, ok := ast.Unparen(kc.Fun).(*ast.SelectorExpr)
+		return ok && sel.Sel.Name == "Kind" && d.canon(sel.X) == specObj
+	}
+	isResults := func(e ast.Expr) bool {
+		base, ok := d.fieldSel(e, fResults)
+		return ok && isKind(base)
+	}
+	pkg := c.Prog.All[fo.Pkg().Path()]
+	fd := declOf(pkg, fo)
+	if pkg == nil || fd == nil {
+		return nil, "", ""
+	}
+	h := flow.NewFunc(pkg, fd)
+	name := fo.Name()
+	// which names inside the helper stand for the key and for the Results
+	var keyObj types.Object
+	resultsParam := map[types.Object]bool{}
+	var kindRecv types.Object
+	i := 0
+	for _, fld := range fd.Type.Params.List {
+		for _, id := range fld.Names {
+			if i == keyIdx {
+				keyObj = h.Info.Defs[id]
+			} else if i < len(call.Args) && isResults(call.Args[i]) {
+				resultsParam[h.Info.Defs[id]] = true
+			}
+			i++
+		}
+	}
+	if fd.Recv != nil && len(fd.Recv.List) == 1 && len(fd.Recv.List[0].Names) == 1 {
+		if sel, ok := ast.Unparen(call.Fun).(*ast.SelectorExpr); ok && isKind(sel.X) {
+			kindRecv = h.Info.Defs[fd.Recv.List[0].Names[0]]
+		}
+	}
+	if keyObj == nil || (len(resultsParam) == 0 && kindRecv == nil) {
+		return nil, "", "" // not a predicate over the key and the kind's Results
+	}
+	hd := c02NewDefs(h)
+	inResults := func(e ast.Expr) bool { // e denotes the Results slice inside the helper
+		e = hd.alias(e)
+		if o := c02Obj(h, e); o != nil && resultsParam[o] {
+			return true
+		}
+		if sel, ok := e.(*ast.SelectorExpr); ok && kindRecv != nil {
+			if s := h.Info.Selections[sel]; s != nil && s.Obj() == types.Object(fResults) && hd.rootObj(sel.X) == kindRecv {
+				return true
+			}
+		}
+		return false
+	}
+	// element of Results: Results[i], or the value variable of a range over Results
+	elemVars := map[types.Object]bool{}
+	ast.Inspect(fd.Body, func(n ast.Node) bool {
+		if r, ok := n.(*ast.RangeStmt); ok && r.Value != nil && inResults(r.X) {
+			elemVars[c02Obj(h, r.Value)] = true
+		}
+		return true
+	})
+	isElem := func(e ast.Expr) bool {
+		e = hd.alias(e)
+		if ix, ok := e.(*ast.IndexExpr); ok {
+			return inResults(ix.X)
+		}
+		o := c02Obj(h, e)
+		return o != nil && elemVars[o]
+	}
+	isKey := func(e ast.Expr) bool { return hd.rootObj(e) == keyObj }
+	// atoms that establish membership
+	var memberKeys []string
+	isMemberAtom := func(e ast.Expr) bool {
+		e = ast.Unparen(e)
+		if be, ok := e.(*ast.BinaryExpr); ok && be.Op == token.EQL {
+			return (isElem(be.X) && isKey(be.Y)) || (isElem(be.Y) && isKey(be.X))
+		}
+		if cl, ok := e.(*ast.CallExpr); ok && calleeIs(h, cl, "pkg/util/stringtool.StrInSlice") && len(cl.Args) == 2 {
+			return isKey(cl.Args[0]) && inResults(cl.Args[1])
+		}
+		return false
+	}
+	ast.Inspect(fd.Body, func(n ast.Node) bool {
+		if e, ok := n.(ast.Expr); ok && isMemberAtom(e) {
+			k, _ := h.Atom(e)
+			memberKeys = append(memberKeys, k)
+		}
+		return true
+	})
+	// a boolean local whose every assignment is false, true (judged on the path) or an expression that
+	// implies membership by its form
+	var staticImplies func(e ast.Expr, self types.Object) bool
+	staticImplies = func(e ast.Expr, self types.Object) bool {
+		e = ast.Unparen(e)
+		if tv := h.Info.Types[e]; tv.Value != nil {
+			return true // false: never true; true: judged by ev:flagTainted
+		}
+		if isMemberAtom(e) {
+			return true
+		}
+		if id, ok := e.(*ast.Ident); ok && c02Obj(h, id) == self {
+			return true
+		}
+		if be, ok := e.(*ast.BinaryExpr); ok {
+			switch be.Op {
+			case token.LAND:
+				return staticImplies(be.X, self) || staticImplies(be.Y, self)
+			case token.LOR:
+				return staticImplies(be.X, self) && staticImplies(be.Y, self)
+			}
+		}
+		return false
+	}
+	flagOK := func(o types.Object) bool {
+		if hd.taken[o] {
+			return false
+		}
+		ok, n := true, 0
+		ast.Inspect(fd.Body, func(x ast.Node) bool {
+			switch t := x.(type) {
+			case *ast.AssignStmt:
+				for i, l := range t.Lhs {
+					if c02Obj(h, l) != o {
+						continue
+					}
+					n++
+					if len(t.Lhs) != len(t.Rhs) || !staticImplies(t.Rhs[i], o) {
+						ok = false
+					}
+				}
+			case *ast.ValueSpec:
+				for i, id := range t.Names {
+					if h.Info.Defs[id] == o && i < len(t.Values) && !staticImplies(t.Values[i], o) {
+						ok = false
+					}
+				}
+			}
+			return true
+		})
+		return ok && n > 0
+	}
+	// does expression e, when true, imply membership (given the facts of st)?
+	var implies func(st *flow.State, e ast.Expr) (yes, known bool)
+	implies = func(st *flow.State, e ast.Expr) (bool, bool) {
+		e = ast.Unparen(e)
+		if tv := h.Info.Types[e]; tv.Value != nil {
+			if tv.Value.ExactString() == "false" {
+				return true, true // never true
+			}
+			return st.Is("ev:member", flow.True), true
+		}
+		if isMemberAtom(e) {
+			return true, true
+		}
+		switch x := e.(type) {
+		case *ast.BinaryExpr:
+			switch x.Op {
+			case token.LAND:
+				l, lk := implies(st, x.X)
+				r, rk := implies(st, x.Y)
+				if (l && lk) || (r && rk) {
+					return true, true
+				}
+				return st.Is("ev:member", flow.True), lk && rk
+			case token.LOR:
+				l, lk := implies(st, x.X)
+				r, rk := implies(st, x.Y)
+				return l && r, lk && rk
+			case token.EQL, token.NEQ, token.LSS, token.LEQ, token.GTR, token.GEQ:
+				return st.Is("ev:member", flow.True), true // a comparison that is not the equality with an element
+			}
+		case *ast.Ident:
+			if st.Is(h.VarKey(x), flow.False) {
+				return true, true
+			}
+			// a flag that is only ever set from expressions implying membership
+			if o := c02Obj(h, x); o != nil && flagOK(o) && !st.Is("ev:flagTainted:"+x.Name, flow.True) {
+				return true, true
+			}
+			return st.Is("ev:member", flow.True), true
+		}
+		return false, false
+	}
+	res := analyze(c, h, flow.Config{
+		NoHavoc: true,
+		OnNode: func(st *flow.State, n ast.Node) {
+			// `flag = true` outside a place where membership is established taints the flag
+			as, ok := n.(*ast.AssignStmt)
+			if !ok || len(as.Lhs) != len(as.Rhs) {
+				return
+			}
+			for i, l := range as.Lhs {
+				id, ok := ast.Unparen(l).(*ast.Ident)
+				if !ok {
+					continue
+				}
+				if tv := h.Info.Types[as.Rhs[i]]; tv.Value != nil && tv.Value.ExactString() == "true" && !st.Is("ev:member", flow.True) {
+					st.Set("ev:flagTainted:"+id.Name, flow.True)
+				}
+			}
+		},
+		AfterAssume: func(st *flow.State, cond ast.Expr, outcome bool) {
+			for _, k := range memberKeys {
+				if st.Is(k, flow.True) {
+					st.Set("ev:member", flow.True)
+				}
+			}
+		},
+	})
+	if res == nil {
+		return nil, "cannot analyse membership helper " + name, "undecided"
+	}
+	n := 0
+	for _, ex := range res.Exits {
+		if ex.Kind != flow.ExitReturn || ex.Return == nil || len(ex.Return.Results) != 1 {
+			continue
+		}
+		n++
+		yes, known := implies(ex.State, ex.Return.Results[0])
+		if !known {
+			return nil, "the membership helper " + name + " has a shape the checker cannot evaluate (" + types.ExprString(ex.Return.Results[0]) + ")", "undecided"
+		}
+		if !yes {
+			return nil, "the membership predicate " + name + " can answer true (`return " + types.ExprString(ex.Return.Results[0]) + "` at " + pos(c, ex.Return) +
+				") without an element of Results having been found equal to the jumpIf key (e.g. sort.SearchStrings returns the insertion index, not a hit): a jumpIf on a result the filter kind does not declare is accepted and can never be taken", "bad"
+		}
+	}
+	if n == 0 {
+		return nil, "membership helper " + name + " has no return", "undecided"
+	}
+	return call, "", "ok"
 }
